@@ -71,6 +71,8 @@ pub fn pool() -> Vec<Template> {
         // a parameter named like a global symbol (`k`), followed by a sub-rule operand whose own expression
         // may mention that global: the operand is written in the scope of the line, not of the rule
         t("mw {k: u8}, {s: src}", "0x6 @ s @ k", &[Typed('u', 8), Src]),
+        // two sub-rule operands, the ambiguous one (literal `a` / expression) first
+        t("mvs {s: src}, {d: reg}", "0xa @ d @ s", &[Src, Reg]),
         // a digit-led token inside the first literal characters of the mnemonic
         t("ld.8 {x: u8}", "0x1b @ x", &[Typed('u', 8)]),
     ]
@@ -97,7 +99,7 @@ fn operand_texts(k: PKind, full: bool) -> Vec<String> {
     match k {
         PKind::Reg => vec!["r0".into(), "r1".into(), "r10".into(), "r2".into(), "R1".into(), "a".into()],
         PKind::Cc => vec!["b".into(), "w".into(), "q".into()],
-        PKind::Src => vec!["#5".into(), "k + 1".into(), "#k".into(), "300".into(), "(r1)".into(), "5".into(), "#300".into(), "(r2)".into(), "a".into(), "A".into(), "#B".into(), "(a)".into()],
+        PKind::Src => vec!["#5".into(), "k + 1".into(), "a".into(), "300".into(), "(r1)".into(), "#k".into(), "5".into(), "#300".into(), "(r2)".into(), "A".into(), "#B".into(), "(a)".into()],
         PKind::Untyped => {
             let mut v: Vec<String> = vec!["5".into(), "0x1234".into(), "-1".into(), "(1 + 1)".into(), "A".into(), "B".into(), "k".into(), "undef".into(), "a".into(), "$".into()];
             if full {
@@ -353,7 +355,7 @@ pub fn f2_prog(seq: &[usize], items: &[Item], banked: bool) -> Prog {
 pub fn run(ctx: &Ctx) -> Report {
     let mut rep = Report::new(
         "model_checking",
-        "F1: every rule set of 1..k templates from a 34-template pool (prefix-sharing mnemonics, literal/typed/untyped/sub-rule operands, wrappers, glued and suffix literals, tie and smallest-wins pairs, slices, le(), $-relative) x every line of the whole pool (every range boundary, labels before/after, constant, undefined name) + malformed lines; F2: fixed 8-rule set x all item sequences up to a length (labels global/nested, constants, data of several widths, #res/#align/#addr, two banks); each compared (success, bits, symbol values) with the reference assembler. Non-trivial = the reference defines the outcome and the program emits >=1 item or is rejected by the rules; distinct by program text.",
+        "F1: every rule set of 1..k templates from a 35-template pool (prefix-sharing mnemonics, literal/typed/untyped/sub-rule operands, wrappers, glued and suffix literals, tie and smallest-wins pairs, slices, le(), $-relative) x every line of the whole pool (every range boundary, labels before/after, constant, undefined name) + malformed lines; F2: fixed 8-rule set x all item sequences up to a length (labels global/nested, constants, data of several widths, #res/#align/#addr, two banks); each compared (success, bits, symbol values) with the reference assembler. Non-trivial = the reference defines the outcome and the program emits >=1 item or is rejected by the rules; distinct by program text.",
     );
     let pool = pool();
     let opts = Opts::iters(30);
